@@ -39,10 +39,9 @@ class C05(Prop):
                   "schedule incl. concurrent clears and late claims: every value published in a block reachable from the tail pointer a "
                   "data_with call loaded at its first step (530) is, at every later configuration, already handed to the callback or still "
                   "ahead of the walking thread, and once the call has returned it is in the slices the call was handed. (6) C05_is_empty_sound "
-                  "(code after fix 1a8142c), every schedule: is_empty = true implies that nothing published when it loaded the tail (520) is in "
-                  "the head block or its successor, and that either the head has no successor or more than B threads exist; hence with at "
-                  "most B threads nothing published at that moment is anywhere in the chain; is_empty = false implies some slot is "
-                  "published. (7) C05_block_order: the slice handed out at 506 is slot 0..len-1 and slot order is claim order (fetch_add "
+                  "(code after fixes 1a8142c and 0248974: the whole bitmap of every block of the chain), every schedule, any number of threads: "
+                  "is_empty = true implies that nothing published when it loaded the tail (520) sits in any block reachable from that tail; "
+                  "is_empty = false implies some slot is published. (7) C05_block_order: the slice handed out at 506 is slot 0..len-1 and slot order is claim order (fetch_add "
                   "returns and bumps the write index, which never decreases and bounds every claimed index). (8) C05_spec_ok_sound: Prop-level "
                   "meaning of spec_ok = true for the clauses without trace positions. (9) C05_spec_ok_on_model_partial, the checker on the model's "
                   "own run of every case (trace-indexed ledger, Common/InterleaveTrace): no anomaly and results shaped like the programs (S0), no "
@@ -55,8 +54,9 @@ class C05(Prop):
                   "are done and returns exactly the published slots of the live chain; C05_spec_conservation_on_model: clause S5 (pushes = cleared "
                   "+ final, no duplicate, same number) on the model's run of every case outside the late-claim class when the run is done. "
                   "C05_spec_pub_positions_on_model: a push-table entry with a 503 position is a completed push whose value sits in a published "
-                  "slot. C05_is_empty_true_beyond_B_threads: with 67 threads is_empty returns true over 64 completed resident pushes (model and "
-                  "real code agree): clause S3 needs 'at most 64 threads'. C05_race_example_run_ok: a racing hand-over case with spec_ok = true. "
+                  "slot. C05_is_empty_beyond_B_threads_refuted_before_fix: with 67 threads the is_empty of the code before fix 0248974 (one look-back) "
+                  "returned true over 64 completed resident pushes; the chain-walking is_empty returns false and spec_ok accepts the run. "
+                  "C05_race_example_run_ok: a racing hand-over case with spec_ok = true. "
                   "The open finding is a theorem "
                   "(C05_late_claim_refutes) and so are the two repaired defects (the model of the code before each fix violates spec_ok outside "
                   "the late-claim class, the model after the fix does not). Tied to /repo by (i) replaying generated schedules on the real "
@@ -70,13 +70,8 @@ class C05(Prop):
                   "(C05_spec_pub_positions_on_model); missing are the 530 / 520 / 541 positions and empty_end in the trace ledger, the alignment "
                   "of data_with / is_empty / clear_with calls with them, a detach ledger (which 541 detached which block) for the `clears` "
                   "disjunct of `accounts`, and the use of C05_snapshot_sees_completed / C05_is_empty_sound along the trace; S3 is tied to those "
-                  "theorems only by evaluation (spec_ok on every replayed schedule, model agreeing step by step, stress oracle). S3 is FALSE on "
-                  "model AND real code with more than 64 concurrent pushers (C05_is_empty_true_beyond_B_threads, 67 threads, replayed on the real "
-                  "code: agree, spec_ok false, outside the known class): is_empty looks only at the head block and its successor; generated cases "
-                  "have at most 4 threads, so the check never prints it, a hand-written replay with > 64 threads would. Corrected oracle defect: "
-                  "Exec.final_data's constant fuel (400) replaced by 4 * blocks + 8, proved sufficient. C05_is_empty_sound needs at most B threads for its strong reading; with more, is_empty = true can miss "
-                  "completed pushes deeper than the head's successor (stated in the theorem). "
-                  "The conservation theorem speaks about "
+                  "theorems only by evaluation (spec_ok on every replayed schedule, model agreeing step by step, stress oracle). Corrected oracle defect: "
+                  "Exec.final_data's constant fuel (400) replaced by 4 * blocks + 8, proved sufficient. The conservation theorem speaks about "
                   "configurations (slots, ownership, per-thread delivered lists); its reading as 'completed = delivered (+) resident' uses "
                   "C05_no_fabrication / R3 (every completed push call has a published slot). Open known finding C05-late-claim (class 1 = the "
                   "model's run of the case sets the ghost flag `late`; includes benign instances where the clearer still waits for the late "
